@@ -182,6 +182,22 @@ impl Scenario for Depth {
             }
             let _ = exact;
         }
+        // very large limits (beyond i32::MAX) are just as non-binding as D_hi
+        for l in [i32::MAX as u32, 1u32 << 31, (1u32 << 31) + 1, u32::MAX - 1, u32::MAX] {
+            let mut ls = src.clone();
+            ls.layers.push(Layer::Depth(l));
+            let a = (s.decode)(&bytes, &ls, Mode::Decode);
+            let b = (s.decode)(&bytes, &slice, Mode::DepthDirect(l));
+            for (name, out) in [("layer", &a), ("direct", &b)] {
+                st.note(salt(&[s.name, name, "huge", if out.res.is_ok() { "ok" } else { "err" }]), &out.trace, false);
+                match (&r.res, &out.res) {
+                    (Ok(rv), Ok(v)) if rv == v && r.taken == out.taken => {},
+                    (Err(_), Err(_)) => {},
+                    (Ok(rv), Err(e)) => return viol("c11.rejects_shallow_value", format!("{}: value {} nests {} heap containers but limit {} ({}) fails: {}", s.name, short(rv), d_hi, l, name, e)),
+                    _ => return viol("c11.not_transparent", format!("{}: bytes {}: limit {} ({}) differs from unlimited decoding", s.name, hex_short(&bytes), l, name)),
+                }
+            }
+        }
         if d_hi >= 4 {
             st.probe("values_nested_4_or_deeper");
         }
@@ -200,7 +216,7 @@ pub struct DeepStack;
 
 const DEPTHS: [usize; 4] = [1_000, 10_000, 100_000, 1_000_000];
 const LIMITS: [u32; 5] = [0, 1, 16, 100, 256];
-const SHAPES: usize = 6;
+const SHAPES: usize = 8;
 const SRCS: usize = 3;
 
 fn deep_bytes(shape: usize, n: usize) -> (&'static str, Vec<u8>) {
@@ -246,13 +262,27 @@ fn deep_bytes(shape: usize, n: usize) -> (&'static str, Vec<u8>) {
             b.extend_from_slice(&[0, 7]);
             ("Vec<Tree>", b)
         },
-        _ => {
+        5 => {
             // Tree through maps only
             for _ in 0..n {
                 b.extend_from_slice(&[3, 4, 1]);
             }
             b.extend_from_slice(&[0, 7]);
             ("Tree", b)
+        },
+        6 => {
+            // MarkChain: Link(Box<()>, Box<Link(...)>): a boxed zero-sized marker on every level
+            b.resize(n, 1u8);
+            b.push(0);
+            ("MarkChain", b)
+        },
+        _ => {
+            // MarkChain: Wide(Rc<()>, vec![Wide(...)])
+            for _ in 0..n {
+                b.extend_from_slice(&[2, 4]);
+            }
+            b.push(0);
+            ("MarkChain", b)
         },
     }
 }
